@@ -74,6 +74,14 @@ def all_cases(tier):
         if all(pi <= (di * (ki - 1) + 1) / 2 for pi, di, ki in zip(p, d, k)):
             add("max_pool2d=max(windows)", [(Nb, Ci, H, W)], A)
             add("avg_pool2d=mean(windows)", [(Nb, Ci, H, W)], A)
+    # one spatial axis: conv1d over (N, Ci, L) is the 2-d construction on (N, Ci, 1, L) with a (1, k) kernel
+    from mc import catalog_nn as _cn
+    n = 0
+    for (L, k, s, p, d, ok) in _cn.geoms1d(tier):
+        if not ok: continue
+        n += 1
+        Nb, Ci, Co = ((2, 1, 2), (3, 2, 1), (1, 2, 2))[n % 3]
+        add("conv1d=unfold@weight", [(Nb, Ci, L), (Co, Ci, k)] + ([(Co,)] if n % 2 else []), {"k": k, "s": s, "p": p, "d": d})
     for names in itertools.chain.from_iterable(itertools.product(("linear", "tanh", "double", "relu"), repeat=r) for r in (1, 2, 3)):
         add("Sequential=composition", [(2, 2)], {"layers": list(names)})
         if len(names) >= 2: add("Sequential=composition", [(2, 2)], {"layers": list(names), "share_first_last": True})
@@ -125,6 +133,13 @@ def sides(case, ts, sg):
         lhs = F.conv2d(x, w, ts[2] if len(ts) > 2 else None, stride=s, padding=p, dilation=d)
         cols = F.unfold(x, k, dilation=d, stride=s, padding=p)                  # (N, Ci*kh*kw, L)
         r = w.reshape((1, w.shape[0], -1)) @ cols                               # (N, Co, L)
+        if len(ts) > 2: r = r + ts[2].reshape((1, -1, 1))
+        return lhs, r.reshape(lhs.shape)
+    if I == "conv1d=unfold@weight":
+        x, w = ts[0], ts[1]
+        lhs = F.conv1d(x, w, ts[2] if len(ts) > 2 else None, stride=A["s"], padding=A["p"], dilation=A["d"])
+        cols = F.unfold(x.unsqueeze(2), (1, A["k"]), dilation=(1, A["d"]), stride=(1, A["s"]), padding=(0, A["p"]))    # (N, Ci*k, Lout)
+        r = w.reshape((1, w.shape[0], -1)) @ cols
         if len(ts) > 2: r = r + ts[2].reshape((1, -1, 1))
         return lhs, r.reshape(lhs.shape)
     if I in ("max_pool2d=max(windows)", "avg_pool2d=mean(windows)"):
